@@ -199,7 +199,8 @@ def install(E):
     E.ext_zero[SCHNORR + 'Signature'] = lambda e: Opaque('sig', None)
     def schnorr_sign(e, a, aux=0):
         k = privval(e, a[0]); h = e.sterm(e.tobytes(a[1]))
-        t = schnorr_sig(k, h, z3.IntVal(aux))
+        if isinstance(aux, int): aux = z3.IntVal(aux)
+        t = schnorr_sig(k, h, aux)
         e.ax(('sig', t.get_id()), slen(t) == 64, validsig(t))
         lst = e.P.g.setdefault('sigs', [])
         for (t2, k2, h2, x2) in lst:        # distinct (key, hash, nonce) => distinct signature bytes
@@ -273,6 +274,8 @@ def install(E):
     I[RT + 'SamePriv'] = lambda e, a: privval(e, a[0]) == privval(e, a[1])
     I[RT + 'SamePub'] = lambda e, a: pkval(e, a[0]) == pkval(e, a[1])
     def vsign(e, a):
-        return schnorr_sign(e, [a[0], a[1]], aux=e.conc(a[2]))[0]
+        x = a[2]
+        aux = x if isinstance(x, int) else z3.If(x == 0, z3.IntVal(0), z3.If(x == 1, z3.IntVal(1), z3.BV2Int(x)))
+        return schnorr_sign(e, [a[0], a[1]], aux=aux)[0]
     I[RT + 'SchnorrSign'] = vsign
     I[RT + 'HashToCurve'] = lambda e, a: h2c_summary(e, a)[0]
